@@ -348,13 +348,13 @@ func c10Waiters(c *Ctx, name string, uncacheable bool, b vsched.Bounds) Sched {
 				if uncacheable {
 					// after the failed/uncacheable fetch the waiters pass to the origin themselves
 					st.Menu = nil
-					return c02Post(e, "c1", "/k1")
+					return c02Post(e, "c1", "/k1", true, nil)
 				}
 				if len(an.Calls) != 1 {
 					return &vsched.Violation{Sig: "extra-fetch", Msg: fmt.Sprintf("%d origin fetches for 3 coalesced requests under store faults", len(an.Calls))}
 				}
 				st.Menu = nil
-				return c02Post(e, "c1", "/k1")
+				return c02Post(e, "c1", "/k1", true, nil)
 			}
 			return bodies, check, func() string { return an.summary() }
 		},
